@@ -195,7 +195,9 @@ def run_child(cmd, input=None, timeout=600, env=None, retries=1, cwd=None):
             return p.returncode, p.stdout, p.stderr
         except subprocess.TimeoutExpired as ex:
             last = ex
-    raise HarnessError("watchdog: %s did not finish in %ss (twice)" % (cmd[0], timeout))
+    err = HarnessError("watchdog: %s did not finish in %ss (twice)" % (cmd[0], timeout))
+    err.partial_stdout = last.stdout or b""      # what the child had written before it was stopped
+    raise err
 
 
 def sanitizer_report(stderr):
